@@ -486,6 +486,7 @@ type c16Inst struct {
 	db       *Database
 	gate     *c16Gate
 	inflight bool
+	broken   bool // an operation panicked: locks may be held, the instance is not used or closed any more
 	heldS    []database.StateReader
 	heldN    []database.NodeReader
 }
@@ -520,6 +521,13 @@ func c16NewInst(u *c16Universe, cfg c16Cfg) *c16Inst {
 }
 
 func (in *c16Inst) close() {
+	if in.broken {
+		if in.gate != nil {
+			in.gate.armed.Store(false)
+			in.gate.open()
+		}
+		return
+	}
 	in.drain()
 	in.db.Close()
 	in.db.diskdb.Close()
@@ -555,11 +563,16 @@ func (in *c16Inst) run(op c16Op, child int, flushes int) error {
 		nodes, states := c16Transition(in.u, op.w, child)
 		err = in.db.Update(in.u.worlds[child].root, in.u.worlds[op.w].root, uint64(child), nodes, states)
 	case 1:
-		in.db.lock.Lock()
-		err = in.db.tree.cap(in.u.worlds[op.w].root, op.layers)
-		in.db.lock.Unlock()
+		err = func() error {
+			in.db.lock.Lock()
+			defer in.db.lock.Unlock()
+			return in.db.tree.cap(in.u.worlds[op.w].root, op.layers)
+		}()
 	case 2:
 		err = in.db.Commit(in.u.worlds[op.w].root, false)
+	}
+	if in.gate != nil && flushes == 0 {
+		in.db.tree.bottom().waitFlush()
 	}
 	if in.gate != nil && flushes > 0 {
 		// wait until the flusher is parked at the gate (or has finished without writing)
@@ -717,6 +730,15 @@ func (in *c16Inst) parentDangling(w int) bool {
 		}
 		dl = pd
 	}
+}
+
+func (in *c16Inst) anyDangling(m *c16Model) bool {
+	for w := range in.u.worlds {
+		if m.live(w) && in.parentDangling(w) {
+			return true
+		}
+	}
+	return false
 }
 
 // check is the oracle, run after an operation. nodeIssues collects failed node
@@ -910,8 +932,9 @@ type c16Shared struct {
 }
 
 type c16Known struct {
-	ops []string
-	msg string
+	ops      []string
+	msg      string
+	followUp bool
 }
 
 type c16Sys struct {
@@ -921,6 +944,8 @@ type c16Sys struct {
 	pending int   // number of leading operations of trace not yet executed on the real database
 	in      *c16Inst
 	err     error
+	tainted bool // a live diff layer hangs (or hung) off a flattened parent object somewhere along this trace
+	dead    bool // an operation on a tainted state failed: the state is not expanded
 }
 
 func (sh *c16Shared) newSys() mc.Sys {
@@ -949,7 +974,7 @@ func (s *c16Sys) Enabled(i int) bool {
 		}
 	}
 	s.materialise()
-	return true
+	return !s.dead
 }
 
 func (s *c16Sys) materialise() {
@@ -962,6 +987,9 @@ func (s *c16Sys) materialise() {
 	for _, i := range s.trace {
 		if err := s.step(m, i, false); err != nil {
 			s.err = fmt.Errorf("replay divergence at prefix op %s: %v", s.sh.al.names[i], err)
+			break
+		}
+		if s.dead {
 			break
 		}
 		s.in.hold(m)
@@ -1040,26 +1068,71 @@ func (s *c16Sys) modelStep(m *c16Model, op c16Op) c16Expect {
 	}
 }
 
+// step executes one operation on the real database and evaluates it against the
+// reference. full: this is the transition being explored (statistics and known-issue
+// records are taken); otherwise it is a prefix replay.
+//
+// Known defect handling (see checks/C16.json): once a live diff layer hangs off a
+// flattened parent object the trace is "tainted". Failed node reads at such a layer
+// are recorded and the exploration goes on; any other failure of an operation applied
+// to a tainted state (e.g. building on top of that layer flattens the flattened parent
+// a second time and wipes the layer tree) is attributed to the same defect, recorded,
+// and that state is not expanded further. Untainted traces are strict.
 func (s *c16Sys) step(m *c16Model, i int, full bool) error {
 	op := s.sh.al.ops[i]
 	ex := s.modelStep(m, op)
-	err := s.in.run(op, ex.child, ex.flushes)
-	if s.in.gate != nil && s.in.gate.timedOut.Load() {
+	taintedBefore := s.tainted
+	var err error
+	fail := mc.Safely(func() error {
+		flushes := ex.flushes
+		if taintedBefore {
+			flushes = 0 // the flush count of a tainted state is not predictable: let the flushes run and wait for them
+		}
+		err = s.in.run(op, ex.child, flushes)
+		return nil
+	})
+	if fail != nil {
+		s.in.broken = true // locks may be left held by the panic: the instance is abandoned
+	}
+	if s.in.gate != nil && s.in.gate.timedOut.Load() && !taintedBefore {
 		s.sh.r.HarnessError("c16: flush gate watchdog fired (the database flushed more often than the reference model predicted)")
 	}
 	switch {
+	case fail != nil:
 	case ex.errWant == 0 && err != nil:
-		return fmt.Errorf("%s: unexpected error: %v", s.sh.al.names[i], err)
+		fail = fmt.Errorf("%s: unexpected error: %v", s.sh.al.names[i], err)
 	case ex.errWant == 1 && err == nil:
-		return fmt.Errorf("%s: must be rejected but succeeded", s.sh.al.names[i])
-	}
-	if !full {
-		return nil
+		fail = fmt.Errorf("%s: must be rejected but succeeded", s.sh.al.names[i])
 	}
 	var st c16Stats
 	var issues []string
-	cerr := s.in.check(m, &st, &issues)
+	if fail == nil && (full || taintedBefore) { // tainted traces are re-checked during replay so that the pruning is reproduced
+		fail = mc.Safely(func() error { return s.in.check(m, &st, &issues) })
+	}
+	if fail == nil && s.in.anyDangling(m) {
+		s.tainted = true
+	}
 	sh := s.sh
+	names := func() []string {
+		out := make([]string, len(s.trace))
+		for k, o := range s.trace {
+			out[k] = sh.al.names[o]
+		}
+		return out
+	}
+	if fail != nil && taintedBefore {
+		s.dead = true
+		if full {
+			sh.mu.Lock()
+			sh.counts["operation on a state with a fork sibling of a flattened layer fails (attributed to the known defect, not expanded)"]++
+			sh.known = append(sh.known, c16Known{ops: names(), msg: fail.Error(), followUp: true})
+			sh.mu.Unlock()
+		}
+		return nil
+	}
+	if !full || fail != nil {
+		return fail
+	}
 	sh.mu.Lock()
 	cls := ex.class
 	if ex.errWant == 2 {
@@ -1077,14 +1150,10 @@ func (s *c16Sys) step(m *c16Model, i int, full bool) error {
 	sh.st.heldLive += st.heldLive
 	if len(issues) > 0 {
 		sh.counts["live fork sibling of a flattened layer: node read fails (stale)"]++
-		names := make([]string, len(s.trace))
-		for k, o := range s.trace {
-			names[k] = sh.al.names[o]
-		}
-		sh.known = append(sh.known, c16Known{ops: names, msg: issues[0]})
+		sh.known = append(sh.known, c16Known{ops: names(), msg: issues[0]})
 	}
 	sh.mu.Unlock()
-	return cerr
+	return nil
 }
 
 func (s *c16Sys) Key() string {
@@ -1092,13 +1161,16 @@ func (s *c16Sys) Key() string {
 	if s.err != nil {
 		return ""
 	}
+	if s.dead {
+		return fmt.Sprint("dead:", s.trace)
+	}
 	var sb strings.Builder
 	for w, p := range s.m.parent {
 		if p != c16Dead {
 			fmt.Fprintf(&sb, "%d<%d;", w, p)
 		}
 	}
-	return sb.String() + "#" + s.in.fingerprint()
+	return fmt.Sprintf("%st=%v#", sb.String(), s.tainted) + s.in.fingerprint()
 }
 
 func c16Close(s mc.Sys) {
@@ -1121,17 +1193,29 @@ func c16Explore(r *mc.R, u *c16Universe, cfg c16Cfg, depth int) {
 	r.OutcomeN(cfg.Name+"/non-live-root checks", int64(sh.st.deadRoots))
 	r.OutcomeN(cfg.Name+"/held readers of live roots checked", int64(sh.st.heldLive))
 	if len(sh.known) > 0 {
-		sort.Slice(sh.known, func(i, j int) bool {
-			a, b := sh.known[i].ops, sh.known[j].ops
+		less := func(a, b []string) bool {
 			if len(a) != len(b) {
 				return len(a) < len(b)
 			}
 			return strings.Join(a, ";") < strings.Join(b, ";")
-		})
+		}
+		sort.Slice(sh.known, func(i, j int) bool { return less(sh.known[i].ops, sh.known[j].ops) })
 		k := sh.known[0]
-		r.Violation("C16/node-read-stale-at-fork-sibling/"+cfg.Name+":"+strings.Join(k.ops, ";"),
-			fmt.Sprintf("%s (the diff layer keeps pointing at the flattened parent object whose disk layer is stale; %d traces of this class in this exploration)", k.msg, len(sh.known)),
-			map[string]any{"explore": name, "ops": k.ops})
+		nFollow := 0
+		var follow *c16Known
+		for i := range sh.known {
+			if sh.known[i].followUp {
+				nFollow++
+				if follow == nil {
+					follow = &sh.known[i]
+				}
+			}
+		}
+		desc := fmt.Sprintf("%s (the diff layer keeps pointing at the flattened parent object whose disk layer is stale; %d traces with failed node reads at such a layer in this exploration)", k.msg, len(sh.known)-nFollow)
+		if follow != nil {
+			desc += fmt.Sprintf("; %d operations applied to such a state failed and were attributed to the same defect, shortest: %s => %s", nFollow, strings.Join(follow.ops, ";"), follow.msg)
+		}
+		r.Violation("C16/node-read-stale-at-fork-sibling/"+cfg.Name+":"+strings.Join(k.ops, ";"), desc, map[string]any{"explore": name, "ops": k.ops})
 	}
 }
 
